@@ -73,9 +73,13 @@ LEVEL = {
 
 # ExitStack's own protocol: it *is* the code that calls __aenter__/__aexit__ by hand
 MANUAL_PROTOCOL_OK = {
-    "contextlib.ExitStack.enter_context": "ExitStack emulates the with statement: enter by hand, register the exit",
-    "contextlib.ExitStack.push": "registers the exit method of a manager that was entered elsewhere",
+    "contextlib.ExitStack": "ExitStack emulates the with statement for the managers handed to it (enter by hand, register "
+                            "the exit; push registers the exit of a manager entered elsewhere) — in any of its methods",
 }
+
+
+def _manual_ok(u) -> bool:
+    return u.short in MANUAL_PROTOCOL_OK or (u.cls is not None and f"{u.module.short}.{u.cls.name}" in MANUAL_PROTOCOL_OK)
 LOCK_METHODS = {"__aenter__", "__aexit__", "__enter__", "__exit__", "acquire", "release", "locked"}
 
 
@@ -114,7 +118,7 @@ def r18_2(ctx) -> None:
             if n.kind == "attr" and n.ast.attr in LOCK_METHODS:  # type: ignore[union-attr]
                 v = ctx.vals.expr(u, n.ast.value, n)  # type: ignore[union-attr]
                 if any(a[0] == "user" and _is_lock_src(ctx, a[1]) for a in v):
-                    if u.short in MANUAL_PROTOCOL_OK:
+                    if _manual_ok(u):
                         continue
                     ctx.fail("R18.2", u, n.ast, "manual use of a user-supplied lock outside `async with`: "
                              "a cancellation between acquire and release leaves it held", node=n)
@@ -126,7 +130,7 @@ def _is_lock_src(ctx, src: str) -> bool:
     if not ctx.pkg.has_unit(ushort):
         return False
     u = ctx.pkg.unit(ushort)
-    if u.short in MANUAL_PROTOCOL_OK:
+    if _manual_ok(u):
         return False
     for p in u.params():
         if p.arg == pname:
